@@ -23,6 +23,7 @@ mod c04;
 mod c05;
 mod damage;
 mod disk;
+mod paint;
 mod refpdf;
 mod simdisk;
 mod synth;
